@@ -30,6 +30,8 @@ func (d *Driver) read() {
 	done := d.done
 
 	for {
+		verifYield("nreader.top")
+
 		select {
 		case <-done:
 			return
@@ -37,7 +39,11 @@ func (d *Driver) read() {
 		}
 
 		rb, err := d.Channel.Read()
+		verifYield("nreader.post_read")
+
 		if err != nil {
+			verifYield("nreader.pre_errsend")
+
 			select {
 			case d.errs <- err:
 			case <-done:
